@@ -597,4 +597,25 @@ def G.aggregate1 (g : G) (f : F2) : G :=
 /-- `reduce(g, f)` without an initial state (`include.rs:214`): `g.aggregate(f).last()` -/
 def reduce1 (L : Option Nat) (fuel : Nat) (g : G) (f : F2) : Res V := last L fuel (g.aggregate1 f)
 
+
+/-! ### `chunks` (`include.rs:165-184`): map(some) . add([none]) . aggregate(Agg(stack, disp)) . filter . map
+`some(v)` is `tup [v]`, `none()` is `tup []`, `Agg(s, disp)` is `tup [seq s, int d]` (d: 0 none, 1 some(false), 2 some(true)) -/
+
+def chWrap : F := fun | .val v => .val (.tup [v]) | x => x
+def chInit : Item := .val (.tup [.seq [], .int 1])
+def chStep (n : Nat) : F2 := fun
+  | .val (.tup [.seq s, _]), .val (.tup [v]) => .val (.tup [.seq ((if s.length < n then s else []) ++ [v]), .int 0])
+  | .val (.tup [.seq s, _]), .val (.tup []) => .val (.tup [.seq s, .int (if s.length > 0 && s.length < n then 2 else 1)])
+  | .viol, _ => .viol
+  | _, .viol => .viol
+  | _, _ => .err
+def chKeep (n : Nat) : P := fun
+  | .val (.tup [.seq s, .int d]) => if (if d == 0 then s.length == n else d == 2) then .t else .f
+  | .viol => .viol
+  | _ => .err
+def chOut : F := fun | .val (.tup [.seq s, _]) => .val (.seq s) | .viol => .viol | _ => .err
+
+def G.chunks (g : G) (n : Nat) : G :=
+  .map (.filter (.aggregate ((G.map g chWrap).mkChain (.fromArr [.tup []])) chInit (chStep n)) (chKeep n)) chOut
+
 end XrayModel.Gen
